@@ -404,7 +404,54 @@ func vRwGen(o *vOut, r *vRand, thorough bool, _ []string, emit func(string)) {
 	e.apply("relay", zero4, "-")
 	e.newRules("rules", []string{vRwEnc(1, 0, "-", "-", mapped, "-", p.ext6[0]), vRwEnc(2, 0, "-", "-", zero4, "-", p.ext4[0]), vRwEnc(4, 0, "-", "-", zero6, "-", p.ext4[1])})
 	e.grid([]int{1, 2, 4}, []string{L1, mapped, zero4, zero6, "bad1", "ws"})
-	e.newRules("opt", []string{vRwEnc(1, 1, "-", "-", L1, "-", "-")}) // F16: the documented "drop" rule through the public option
+	// the documented empty-External rules through the public option (F16, fixed in /repo 446b13f): replace = drop the candidate,
+	// append = no-op; every type x mode x {-, Local} x {-, CIDR} x {-, Iface} x {-, Networks}; alone, before and after a global rule of
+	// the same type; and the lists the option must still reject: blank entries only ("ws", "ws,ws") in the same scopes
+	e.newRules("opt", []string{vRwEnc(1, 1, "-", "-", L1, "-", "-")}) // the former F16 witness: "drop this host address"
+	e.grid([]int{1}, []string{L1, L2})
+	e.apply("host", L1, "-")
+	e.apply("host", L2, "-")
+	for _, ty := range []int{1, 2, 4, 0} {
+		kind := map[int]string{0: "host", 1: "host", 2: "srflx", 4: "relay"}[ty]
+		ct := ty
+		if ct == 0 {
+			ct = 1
+		}
+		for _, mo := range []int{1, 2, 0} {
+			for _, lo := range []string{"-", L1} {
+				for _, ci := range []string{"-", p.cidr4[0]} {
+					for _, ifc := range []string{"-", "eth0"} {
+						for _, ne := range []string{"-", "1", "2", "9"} {
+							empty := vRwEnc(ty, mo, ifc, ci, lo, ne, "-")
+							global := vRwEnc(ty, 3-max(mo, 1), "-", "-", "-", "-", p.ext4[0]+","+p.ext6[0])
+							for _, rs := range [][]string{{empty}, {empty, global}, {global, empty}} {
+								e.newRules("opt", rs)
+								for _, ip := range []string{L1, L2, M1} {
+									e.lookup(ct, ip, "-")
+									e.lookup(ct, ip, "eth0")
+								}
+								e.apply(kind, L1, "eth0")
+								e.apply(kind, L2, "-")
+								o.stat("gen.opt.empty")
+							}
+							for _, ws := range []string{"ws", "ws,ws"} {
+								blank := vRwEnc(ty, mo, ifc, ci, lo, ne, ws)
+								e.newRules("opt", []string{blank})
+								e.newRules("opt", []string{global, blank})
+								e.lookup(ct, L1, "-")
+								o.stat("gen.opt.blank")
+							}
+						}
+					}
+				}
+			}
+		}
+	}
+	e.newRules("opt", []string{vRwEnc(1, 1, "-", "-", "-", "-", "-")}) // deny every host address
+	e.grid([]int{1, 2}, []string{L1, M1})
+	e.apply("host", L1, "-")
+	e.apply("hostmux", M1, "-")
+	e.newRules("opt", []string{vRwEnc(1, 1, "-", "-", "-", "-", "ws,"+p.ext4[0]), vRwEnc(1, 1, "-", "-", L1, "-", "ws,ws,ws")})
 	e.newRules("opt", []string{vRwEnc(1, 0, "-", "-", "-", "-", p.ext4[0]+",ws,"+p.ext4[0]+","+p.ext4[1])})
 	e.grid([]int{1}, []string{L1})
 
@@ -514,6 +561,9 @@ func vRwGen(o *vOut, r *vRand, thorough bool, _ []string, emit func(string)) {
 	randExt := func() string {
 		n := r.intn(4)
 		if n == 0 {
+			if r.chance(1, 24) {
+				return []string{"ws", "ws,ws"}[r.intn(2)] // blank entries only: the option rejects, the compiler cannot parse them
+			}
 			return "-"
 		}
 		var xs []string
